@@ -88,8 +88,8 @@ type UpdateValidator interface {
 }
 
 type checkConformanceFunc func(
-	oldDecl *ast.CompositeDeclaration,
-	newDecl *ast.CompositeDeclaration,
+	oldDecl ast.ConformingDeclaration,
+	newDecl ast.ConformingDeclaration,
 )
 
 type ContractUpdateValidator struct {
@@ -364,8 +364,15 @@ func checkDeclarationUpdatability(
 		checkConformance,
 	)
 
-	if newDecl, ok := newDeclaration.(*ast.CompositeDeclaration); ok {
+	switch newDecl := newDeclaration.(type) {
+	case *ast.CompositeDeclaration:
 		if oldDecl, ok := oldDeclaration.(*ast.CompositeDeclaration); ok {
+			checkConformance(oldDecl, newDecl)
+		}
+
+	case *ast.InterfaceDeclaration:
+		// Interfaces may also conform to (inherit from) other interfaces
+		if oldDecl, ok := oldDeclaration.(*ast.InterfaceDeclaration); ok {
 			checkConformance(oldDecl, newDecl)
 		}
 	}
@@ -694,8 +701,8 @@ func checkEnumCases(
 }
 
 func (validator *ContractUpdateValidator) checkConformance(
-	oldDecl *ast.CompositeDeclaration,
-	newDecl *ast.CompositeDeclaration,
+	oldDecl ast.ConformingDeclaration,
+	newDecl ast.ConformingDeclaration,
 ) {
 
 	// Here it is assumed enums will always have one and only one conformance.
@@ -703,8 +710,8 @@ func (validator *ContractUpdateValidator) checkConformance(
 	// Therefore, below check for multiple conformances is only applicable
 	// for non-enum type composite declarations. i.e: structs, resources, etc.
 
-	oldConformances := oldDecl.Conformances
-	newConformances := newDecl.Conformances
+	oldConformances := oldDecl.ConformanceList()
+	newConformances := newDecl.ConformanceList()
 
 	// All the existing conformances must have a match. Order is not important.
 	// Having extra new conformance is OK. See: https://github.com/onflow/cadence/issues/1394
@@ -732,10 +739,12 @@ func (validator *ContractUpdateValidator) checkConformance(
 		if !found {
 			oldConformanceID := validator.oldTypeID(oldConformance)
 
+			newIdentifier := newDecl.DeclarationIdentifier()
+
 			validator.report(&ConformanceMismatchError{
-				DeclName:           newDecl.Identifier.Identifier,
+				DeclName:           newIdentifier.Identifier,
 				MissingConformance: string(oldConformanceID),
-				Range:              ast.NewUnmeteredRangeFromPositioned(newDecl.Identifier),
+				Range:              ast.NewUnmeteredRangeFromPositioned(newIdentifier),
 			})
 
 			return
